@@ -34,7 +34,12 @@ def gen_case(rng: random.Random, i: int, thorough: bool):
         # accuracy is met, error otherwise, never more iterations than the cap) is what is exercised
         cfg["cMaxIterations"] = rng.choice([1, 2, 2, 3])
         cfg["cZeroFindingAccuracy"] = rng.choice([5e-6, 1e-4, 1e-3, 1e-2])
-    return {"shot": p, "d_yd": d_yd, "prev_zero_rad": prev, "cfg": cfg}
+    if i % 5 == 2:
+        p["powder"] = [rng.choice([15.0, -10.0, 35.0]), rng.choice([0.008, 0.015, 0.03])]       # launch velocity depends on the temperature
+    # a hold-over left on the shot while it is zeroed (the statement fires back with none), and the zero distance handed over
+    # in various units or as a bare number in the preferred distance unit
+    return {"shot": p, "d_yd": d_yd, "prev_zero_rad": prev, "cfg": cfg, "holdover_rad": [0.0, 0.0015, 0.0, -0.004][i % 4],
+            "dist_as": ["Yard", "Meter", "Foot", "bare:Meter", "Yard", "bare:Foot", "Inch"][i % 7]}
 
 
 def steep_long_case(rng, i):
@@ -67,7 +72,7 @@ def run_case(case, tid):
     m = impl.pb()
     U = m.Unit
     core.reset_world()
-    p = dict(case["shot"], zero_rad=case["prev_zero_rad"])
+    p = dict(case["shot"], zero_rad=case["prev_zero_rad"], rel_rad=case.get("holdover_rad", 0.0))
     shot = shots.build_shot(p)
     calc = shots.build_calc(case["cfg"] or None)
     cfg = calc._calc._config
@@ -94,8 +99,18 @@ def run_case(case, tid):
     stored_before = shot.weapon.zero_elevation
     sb = (float(stored_before.raw_value).hex(), id(stored_before))
     rec = integ.Recorder(keep_integrate=False).install()
-    o = impl.outcome(calc.set_weapon_zero, shot, U.Yard(case["d_yd"]))
+    das = case.get("dist_as", "Yard")
+    if das.startswith("bare:"):
+        du = getattr(U, das[5:])
+        m.PreferredUnits.distance = du
+        d_arg = U.Yard(case["d_yd"]) >> du
+    else:
+        du = getattr(U, das)
+        d_arg = du(U.Yard(case["d_yd"]) >> du)
+    o = impl.outcome(calc.set_weapon_zero, shot, d_arg)
     rec.remove()
+    m.PreferredUnits.defaults()
+    shot.relative_angle = U.Radian(0.0)          # "fired with it and no further hold-over"
     z = rec.zcalls[-1] if rec.zcalls else None
     # "does not fail for reachable targets" presumes the documented iteration budget: with a smaller cap only the protocol is checked
     demand = bool(comfortably and cfg.cMaxIterations >= 20)
